@@ -51,6 +51,7 @@ type Scenario struct {
 	HandshakeMs int         `json:"handshake_ms,omitempty"`
 	WriteLagUs  int64       `json:"write_lag_us,omitempty"` // virtual duration of each WriteTo call
 	Reuse       int         `json:"reuse,omitempty"`        // udp/tcp: run the same configuration value this many times in a row
+	ReuseFrom   string      `json:"reuse_from,omitempty"`   // with Reuse: the earlier runs go to this address; the value's Target field is then set to Target for the last run
 	earlier     []earlierRun
 }
 
@@ -60,6 +61,15 @@ type earlierRun struct {
 }
 
 func (sc *Scenario) IsV6() bool   { return strings.HasSuffix(sc.Variant, "6") }
+// runIdx is the index of the capture/send handles of the run whose result RunScenario returns (the last one
+// when a configuration value is reused).
+func (sc *Scenario) runIdx() int {
+	if sc.Reuse > 1 {
+		return sc.Reuse - 1
+	}
+	return 0
+}
+
 func (sc *Scenario) Serial() bool { return strings.HasPrefix(sc.Variant, "tcp") }
 func (sc *Scenario) Poll() time.Duration {
 	switch sc.Variant {
@@ -127,7 +137,11 @@ func callEntry(ctx context.Context, sc *Scenario, target netip.AddrPort) (*resul
 	case "icmp4", "icmp6":
 		return icmp.RunICMPTraceroute(ctx, icmp.Params{Target: target.Addr(), ParallelParams: parallelParams(sc)})
 	case "udp4", "udp6":
-		u := udp.NewUDPv4(net.IP(target.Addr().AsSlice()), target.Port(), uint8(sc.MinTTL), uint8(sc.MaxTTL), sc.Delay(), sc.Timeout(), false)
+		first := target.Addr()
+		if sc.ReuseFrom != "" && sc.Reuse > 1 {
+			first = netip.MustParseAddr(sc.ReuseFrom)
+		}
+		u := udp.NewUDPv4(net.IP(first.AsSlice()), target.Port(), uint8(sc.MinTTL), uint8(sc.MaxTTL), sc.Delay(), sc.Timeout(), false)
 		u.LoosenICMPSrc = !sc.Strict
 		// Reuse: the same configuration value is run several times in a row (the library's config structs are
 		// plain values with a Traceroute method); the earlier results are kept in sc.earlier
@@ -135,14 +149,20 @@ func callEntry(ctx context.Context, sc *Scenario, target netip.AddrPort) (*resul
 			r, err := u.Traceroute()
 			sc.earlier = append(sc.earlier, earlierRun{r, err})
 		}
+		u.Target = net.IP(target.Addr().AsSlice())
 		return u.Traceroute()
 	case "tcp", "tcp-paris":
-		t := tcp.NewTCPv4(net.IP(target.Addr().AsSlice()), target.Port(), uint8(sc.MinTTL), uint8(sc.MaxTTL), sc.Delay(), sc.Timeout(), sc.Variant == "tcp-paris", false)
+		first := target.Addr()
+		if sc.ReuseFrom != "" && sc.Reuse > 1 {
+			first = netip.MustParseAddr(sc.ReuseFrom)
+		}
+		t := tcp.NewTCPv4(net.IP(first.AsSlice()), target.Port(), uint8(sc.MinTTL), uint8(sc.MaxTTL), sc.Delay(), sc.Timeout(), sc.Variant == "tcp-paris", false)
 		t.LoosenICMPSrc = !sc.Strict
 		for i := 1; i < sc.Reuse; i++ {
 			r, err := t.Traceroute()
 			sc.earlier = append(sc.earlier, earlierRun{r, err})
 		}
+		t.Target = net.IP(target.Addr().AsSlice())
 		return t.Traceroute()
 	case "sack":
 		hs := time.Duration(sc.HandshakeMs) * time.Millisecond
